@@ -331,7 +331,7 @@ def record_step(sc, direction):
           "N": sc["N"], "free": sc["free"], "h1first": sc["h1first"], "ev": rec.events, "outcome": outcome,
           "input_untouched": bool(np.array_equal(state.pos, before[0]) and np.array_equal(state.mom, before[1]) and state.dir == before[2]),
           "final_man": True, "final_cot": True, "roundtrip_ok": True, "consistent_pos": True, "consistent_mom": True,
-          "sampled_cot": True, "stress_ok": True}
+          "sampled_cot": True, "stress_ok": True, "stress_rev_ok": True}
     if "Constrained" in sc["kind"]:
         # every sampled momentum and every momentum projection lies in the cotangent space
         from mici.states import ChainState
@@ -455,7 +455,7 @@ def stress_roundtrips(sc, n_trials):
     from mici.states import ChainState
 
     rng = np.random.default_rng(17)
-    worst, returned = 0.0, 0
+    worst, returned, rev_raised, nbad = 0.0, 0, 0, 0
     for t in range(n_trials):
         if sc["integ"] == "constrained":
             model = zoo.Model(2, curved="wavy")
@@ -485,17 +485,25 @@ def stress_roundtrips(sc, n_trials):
         state = ChainState(pos=np.array(pos), mom=np.array(mom), dir=int(rng.choice([1, -1])))
         try:
             s1 = integ.step(state)
-            s1 = s1.copy()
-            s1.dir = -s1.dir
-            s2 = integ.step(s1)
         except IntegratorError:
             continue
         except Exception:  # noqa: BLE001  (a foreign exception is judged by the step traces)
             continue
+        try:
+            s1 = s1.copy()
+            s1.dir = -s1.dir
+            s2 = integ.step(s1)
+        except IntegratorError:
+            rev_raised += 1     # the step returned a state, yet integrating back from it fails (loudly)
+            continue
+        except Exception:  # noqa: BLE001
+            continue
         returned += 1
         err = max(float(np.max(np.abs(s2.pos - state.pos))), float(np.max(np.abs(s2.mom - state.mom))))
-        worst = max(worst, err / max(1.0, float(np.max(np.abs(state.mom)))))
-    return worst <= 1e-5, returned, worst
+        rel = err / max(1.0, float(np.max(np.abs(state.mom))))
+        nbad += rel > 1e-5
+        worst = max(worst, rel)
+    return worst <= 1e-5, returned, worst, rev_raised, int(nbad)
 
 
 TRACE_CFG = """SPECIFICATION TraceSpec
@@ -507,11 +515,12 @@ INVARIANT TimeBudget
 INVARIANT ReverseChecked
 INVARIANT StaysOnManifold
 INVARIANT RoundTrip
+INVARIANT ReverseReturns
 INVARIANT InputUntouched
 INVARIANT Consistent
 CHECK_DEADLOCK FALSE
 """
-INVS = ["FollowsProgram", "TimeBudget", "ReverseChecked", "StaysOnManifold", "RoundTrip", "InputUntouched", "Consistent"]
+INVS = ["FollowsProgram", "TimeBudget", "ReverseChecked", "StaysOnManifold", "RoundTrip", "ReverseReturns", "InputUntouched", "Consistent"]
 
 
 def validate(traces, name):
@@ -531,12 +540,12 @@ def validate(traces, name):
     def tr_tla(t):
         return ("[kind |-> %s, N |-> %d, free |-> %s, h1first |-> %s, ev |-> <<%s>>, outcome |-> %s, input_untouched |-> %s, "
                 "final_man |-> %s, final_cot |-> %s, roundtrip_ok |-> %s, consistent_pos |-> %s, consistent_mom |-> %s, sampled_cot |-> %s, "
-                "stress_ok |-> %s]") % (
+                "stress_ok |-> %s, stress_rev_ok |-> %s]") % (
             tlc.tla_str(t["kind"]), t["N"], tlc.to_tla(t["free"]) if t["free"] else "<<>>", tlc.to_tla(t["h1first"]),
             ", ".join(ev_tla(e) for e in t["ev"]), tlc.tla_str(t["outcome"].split(":")[0]), tlc.to_tla(t["input_untouched"]),
             tlc.to_tla(t["final_man"]), tlc.to_tla(t["final_cot"]), tlc.to_tla(t["roundtrip_ok"]),
             tlc.to_tla(t["consistent_pos"]), tlc.to_tla(t["consistent_mom"]), tlc.to_tla(t["sampled_cot"]),
-            tlc.to_tla(t["stress_ok"]))
+            tlc.to_tla(t["stress_ok"]), tlc.to_tla(t["stress_rev_ok"]))
 
     (d / "TraceDataInt.tla").write_text("---- MODULE TraceDataInt ----\nEXTENDS Integers\nTraces == <<\n "
                                         + ",\n ".join(tr_tla(t) for t in traces) + "\n>>\n====\n")
@@ -556,7 +565,7 @@ def validate(traces, name):
     return failures, states
 
 
-OWNER = {"TimeBudget": "C06", "Consistent": "C06", "ReverseChecked": "C02", "RoundTrip": "C02",
+OWNER = {"TimeBudget": "C06", "Consistent": "C06", "ReverseChecked": "C02", "RoundTrip": "C02", "ReverseReturns": "C02",
          "InputUntouched": "C02", "StaysOnManifold": "C04"}
 
 
@@ -591,8 +600,9 @@ def run_traces(tier, name):
                     (sc["integ"] in ("implicit_leapfrog", "implicit_midpoint") and sc["kind"] in ("Riemannian", "SoftAbs")
                      and sc.get("flavour", "diag") in ("diag", "scalar", "-"))
                     or (sc["integ"] == "constrained" and sc["kind"] == "Constrained" and sc.get("curved", True))):
-                ok, nret, worst = stress_roundtrips(sc, (600 if tier == "quick" else 4000) if sc["integ"] != "constrained" else (60 if tier == "quick" else 400))
-                tr["stress_ok"], tr["stress_worst"], tr["stress_returned"] = ok, worst, nret
+                ok, nret, worst, nrev, nbad = stress_roundtrips(sc, 600 if tier == "quick" else 4000)
+                tr["stress_ok"], tr["stress_worst"], tr["stress_returned"], tr["stress_bad"] = ok, worst, nret, nbad
+                tr["stress_rev_ok"], tr["stress_rev_raised"] = nrev == 0, nrev
             traces.append(tr)
     fails, states = validate(traces, name)
     by_trace = {}
@@ -615,11 +625,23 @@ def run_traces(tier, name):
                                     f"derivative of the system's own Hamiltonian system.h (position displacement ratio {tr.get('ratio')}, must be 1)",
                       "ReverseChecked": f"reverse-check protocol violated (outcome {tr['outcome']}, events {[(e['op'], e['ok']) for e in tr['ev']]})",
                       "RoundTrip": f"n steps, flip, n steps misses the start by {tr.get('rt_err')}; hard-state round trips: "
-                                   f"{tr.get('stress_returned')} returned, worst relative miss {tr.get('stress_worst')} (a returned step that is not undone by flip + step must raise an IntegratorError instead)",
+                                   f"{tr.get('stress_returned')} returned, {tr.get('stress_bad')} missed the start, worst relative miss {tr.get('stress_worst')} (a returned step that is not undone by flip + step must raise an IntegratorError instead)",
+                      "ReverseReturns": f"hard-state round trips: {tr.get('stress_rev_raised')} steps returned a state from which integrating back "
+                                        f"(flip + step) raised an IntegratorError -- a step that cannot be undone has to raise itself",
                       "InputUntouched": "the input state object was modified by step()",
                       "StaysOnManifold": f"state left the manifold / cotangent space (events {[(e['op'], e['man'], e['cot']) for e in tr['ev']]}, "
                                          f"final {tr['final_man']}/{tr['final_cot']}, sampled momenta in cotangent space: {tr['sampled_cot']})"}[inv]
-            out.append((owner, f"{owner}:{sc['integ']}:{inv}", f"{_scname(sc)} (dir {tr['direction']}): {detail}", rp))
+            cfg_tag = sc["integ"] + (f"[{sc['solver']}]" if sc.get("solver") else "")
+            nret = max(1, tr.get("stress_returned", 1) + tr.get("stress_rev_raised", 0))
+            if inv == "ReverseReturns":
+                # (how often: an occasional failure at the edge of a Newton basin is a different finding from a
+                #  reverse check that lets a whole class of steps through)
+                sig = f"{owner}:{cfg_tag}:ReverseReturns:{'rare' if tr['stress_rev_raised'] <= 0.05 * nret else 'frequent'}"
+            elif inv == "RoundTrip" and tr.get("roundtrip_ok", True) and not tr.get("stress_ok", True):
+                sig = f"{owner}:{cfg_tag}:RoundTrip:hard-states:{'rare' if tr.get('stress_bad', 0) <= 0.002 * nret else 'frequent'}"
+            else:
+                sig = f"{owner}:{sc['integ']}:{inv}"
+            out.append((owner, sig, f"{_scname(sc)} (dir {tr['direction']}): {detail}", rp))
     return {"traces": traces, "failures": out, "states": states}
 
 
@@ -708,7 +730,7 @@ def run_finite_flow(tier, name):
         (d / "FiniteFlow.tla").write_text(src)
         res = tlc.run_tlc(d, "FiniteFlow", FF_CFG.format(p=c["p"], den=den, h1first=tlc.to_tla(c["h1first"]),
                                                           maxn=3 if tier == "quick" else 4),
-                          workers=2, timeout=600, cpus=2)
+                          workers=2, timeout=600, cpus=2, stack="64m")
         if not res.ok:
             raise MachineryError(f"FiniteFlow.tla violates its own invariant {res.violated}: {c}\n{res.stdout[-1500:]}")
         states += res.distinct
